@@ -82,17 +82,17 @@ CLAIMED["C04"] = dict(
 CLAIMED["C06"] = dict(
     technique="metamorphic property-based testing: recipe vs relabelled / row-permuted / re-ordered recipe, results joined on element identity",
     text="Exploration: for generated hydraulic and heating recipes a transform tau (injective relabelling of every table incl. sparse, unsorted "
-         "and >= 1e5 labels, row permutation of every table, permutation of the creation order, sector all<->None which changes the component "
+         "and >= 1e5 labels and multiples of the table length, row permutation of every table - also on a net object that has already been calculated -, permutation of the creation order, sector all<->None which changes the component "
          "order) is drawn; both recipes are built from scratch through the public API, solved with the same tight options and every result "
          "column of every table is compared row by row via the label maps (NaN pattern included).",
     note="Trusted: cross-run tolerances of DESIGN 2.3. Labels capped at 3e5. Nets in which a pump / compressor carries zero or reverse flow are "
-         "discarded (discontinuous lift: several solutions possible), as are verdict mismatches of such nets.",
+         "discarded (discontinuous lift: several solutions possible), as are verdict mismatches of such nets, states with negative pressure (the library's own 'physically incorrect' criterion) and nets with a laminar branch under a turbulent-only friction model.",
     ref="DESIGN.md 4/C06")
 CLAIMED["C08"] = dict(
     technique="metamorphic property-based testing: same network from generated start values and with both damping strategies, pairwise agreement of converged runs",
     text="Exploration: generated hydraulic nets (pn_bar scaled 0.3..3 per junction) and heating nets in the three situations where tfluid_k is a "
          "pure start value (bidirectional; sequential with a constant-property fluid; mode='heat' from one fixed hydraulic solution; shifts of "
-         "+-40 K) are solved with constant and automatic damping; every pair of converged runs is compared on all result columns.",
+         "+-40 K; optionally with a booster pump component) are solved with constant and automatic damping; every pair of converged runs is compared on all result columns (1e-6; 1e-4 for slowly, linearly converging cases).",
     note="Trusted: uniqueness of the solution for the Nikuradse law (hydraulic cases are restricted to it). Runs ending in the negative-pressure "
          "mirror solution (returned with a UserWarning) and runs that do not converge from a far start are discards. Known finding: non-unique "
          "solutions with pump / compressor bypass.",
